@@ -32,8 +32,8 @@ PATTERNS = {
             ['Rs', 'Rst'], ['Rst', 'Rs'], ['M01', 'M10'], ['M10', 'M01'], ['I4'], ['Pn'], ['Rn']],
     'INV': [['Si', 'S'], ['S', 'Si'], ['Di', 'D'], ['D', 'Di'], ['k2', 'km'], ['I']],
     'AXT': [['Ma', 'Mb'], ['Mb', 'Ma'], ['Me', 'Mf'], ['kt', 'kt']],
-    'EXT': [['U', 'V'], ['V', 'W'], ['K', 'K'], ['I'], ['Ub', 'Vb']],
-    'BLK': [['Bm', 'Bmi'], ['Bvt', 'Bv'], ['Bv', 'Bvt'], ['Rw', 'Dg'], ['Dg', 'Dg'], ['Dg', 'Cl'], ['Rw', 'Cl'], ['Dr', 'Drt'], ['Ddi', 'Dd'], ['DgI'], ['RwT', 'Dr'], ['Dr', 'ClT'], ['RwT', 'ClT']],
+    'EXT': [['Dw', 'Pw', 'kh'], ['Kb', 'Dw', 'Pw'], ['U', 'V'], ['V', 'W'], ['K', 'K'], ['I'], ['Ub', 'Vb']],
+    'BLK': [['Dh', 'Dr'], ['Dh', 'Dh'], ['Bm', 'Bmi'], ['Bvt', 'Bv'], ['Bv', 'Bvt'], ['Rw', 'Dg'], ['Dg', 'Dg'], ['Dg', 'Cl'], ['Rw', 'Cl'], ['Dr', 'Drt'], ['Ddi', 'Dd'], ['DgI'], ['RwT', 'Dr'], ['Dr', 'ClT'], ['RwT', 'ClT']],
 }
 CONTEXT = {
     'POL': ['R2', 'H', 'k2', 'Pol', 'k4'],
